@@ -31,6 +31,14 @@ def cnum(c):
     return {"X": 23, "Y": 24, "MT": 25}.get(c) or int(c)
 
 
+def _chunk(case):
+    """--chunk-size for PGEN panels / outputs, a function of the case: none, one, and sizes that do and do not divide the
+    number of variants (in the file, on a chromosome, in the region)"""
+    if "pgen" not in (case["fmt_in"], case["fmt_out"]):
+        return None
+    return (None, 1, 2, 3, 5)[case["seed"] % 5]
+
+
 def gen(rng, tier, no_repl_only=False, region_p=0.25):
     n = 120 if tier == "quick" else 3000
     for t in range(n):
@@ -222,7 +230,7 @@ def run_output_vcf(case):
     np.random.seed(case["seed"])
     try:
         with rp:
-            sg.output_vcf(bps, list(case["chroms"]), str(d / "model.dat"), ref_file, str(d / "info.tab"), (_pipeline_region if case.get("sim") else (dict(case["region"]) if case["region"] else None)), case["pop_field"], case["sample_field"], case["no_repl"], out, SD.silent_log())
+            sg.output_vcf(bps, list(case["chroms"]), str(d / "model.dat"), ref_file, str(d / "info.tab"), (_pipeline_region if case.get("sim") else (dict(case["region"]) if case["region"] else None)), case["pop_field"], case["sample_field"], case["no_repl"], out, SD.silent_log(), **({"chunk_size": _chunk(case)} if _chunk(case) else {}))
     finally:
         sg._convert_haplotype = orig_conv
         sg._find_random_sample = orig_frs
@@ -468,7 +476,7 @@ def oracle(case, obs):
 
 
 def describe(case, obs):
-    tags = [f"in={case['fmt_in']}", f"out={case['fmt_out']}", f"flags={int(case['pop_field'])}{int(case['sample_field'])}", "no_replacement" if case["no_repl"] else "replacement"]
+    tags = [f"in={case['fmt_in']}", f"out={case['fmt_out']}", f"chunk_size={_chunk(case)}", f"flags={int(case['pop_field'])}{int(case['sample_field'])}", "no_replacement" if case["no_repl"] else "replacement"]
     if case["region"]:
         tags.append("region")
     if case["prefix"]:
@@ -596,7 +604,7 @@ CHECK = Check(
             setup=setup,
             teardown=teardown,
             nontrivial=lambda c, o: C.jdump(c) if isinstance(o, dict) and "gts" in o and len(o["gts"]) > 1 else None,
-            rule="hand-built breakpoint sets (1-3 simulated samples, 1-3 chromosomes incl. X, 1-4 blocks per chromosome with ends on a grid, closed by the sentinel) over identifiable panels (reference haplotype (i,k) carries the unique allele index (2i+k+j) mod 2n at the j-th multi-allelic variant, so every output genotype identifies its source haplotype and the reference column it was read from), variants on block ends, ends+1, position 1 and far beyond the map, with/without chr prefix, panels holding more chromosomes than requested, samples of unused populations, optional region, all four POP/SAMPLE flag combinations, with and without replacement, VCF.gz or PGEN input, VCF / VCF.gz / BCF / PGEN output read back with pysam / pgenlib; the recorded per-block choices are replayed into the Lean loop model and the whole genotype (and POP) matrix is compared; every _convert_haplotype call is also replayed from its inputs (haplotype, population -> samples map, recorded draw) into Convert.convert and its block ends, labels and chosen reference samples compared",
+            rule="hand-built breakpoint sets (1-3 simulated samples, 1-3 chromosomes incl. X, 1-4 blocks per chromosome with ends on a grid, closed by the sentinel) over identifiable panels (reference haplotype (i,k) carries the unique allele index (2i+k+j) mod 2n at the j-th multi-allelic variant, so every output genotype identifies its source haplotype and the reference column it was read from), variants on block ends, ends+1, position 1 and far beyond the map, with/without chr prefix, panels holding more chromosomes than requested, samples of unused populations, optional region, all four POP/SAMPLE flag combinations, with and without replacement, VCF.gz or PGEN input (PGEN with --chunk-size none, 1, 2, 3, 5), VCF / VCF.gz / BCF / PGEN output read back with pysam / pgenlib; the recorded per-block choices are replayed into the Lean loop model and the whole genotype (and POP) matrix is compared; every _convert_haplotype call is also replayed from its inputs (haplotype, population -> samples map, recorded draw) into Convert.convert and its block ends, labels and chosen reference samples compared",
         ),
         Section(
             name="simulated_breakpoints",
